@@ -16,7 +16,7 @@ EXPLANATION = (
     'finite list.  Does not decide the behaviour for each concrete errno or pairs of '
     'faults beyond these edges.')
 ASSUMPTIONS = ['A1-A6; faults are modelled as OSError raised by a primitive of the table']
-MINIMUM = {'R17.1': 1, 'R17.2': 6, 'R17.3': 2, 'R17.4': 1, 'R17.5': 1}
+MINIMUM = {'R17.1': 1, 'R17.2': 6, 'R17.3': 2, 'R17.4': 1, 'R17.5': 1, 'R17.6': 1}
 
 
 def errno_allow(c, pol):
@@ -129,6 +129,37 @@ def check(ctx):
                            'and %s' % (x.data['prim'],
                                        'another name is tried' if o.id in leak else
                                        'the run ends without removing it'))
+    # ---- R17.6 a too-long name is really shortened: the retried name is
+    # X[0:len(X) - len(A)] + A (same X, same A), whose length is len(X)
+    seen_shapes = set()
+    for o in r.opens:
+        for parts in join_part_lists(r.info_of(o)):
+            for alt in flat(parts[-1]):
+                top = strip(alt)
+                if not (isinstance(top, Bin) and top.op == '+'):
+                    continue
+                for l in flat(top.left):
+                    sliced = [x for x in walk(l) if isinstance(x, Sub) and
+                              isinstance(x.index, Slice) and x.index.upper is not None and
+                              contains(x.index.upper, lambda y: is_call(y, 'len'))]
+                    if not sliced or cid(l) in seen_shapes:
+                        continue
+                    seen_shapes.add(cid(l))
+                    ok = isinstance(l, Sub) and len(sliced) == 1 and cid(sliced[0]) == cid(l)
+                    if ok:
+                        up = strip(l.index.upper)
+                        ok = isinstance(up, Bin) and up.op == '-' and \
+                            is_call(strip(up.left), 'len') and \
+                            is_call(strip(up.right), 'len') and \
+                            alt_ids(strip(up.left).args[0]) == alt_ids(l.base) and \
+                            (l.index.lower is None or is_const(strip(l.index.lower), 0)) and \
+                            alt_ids(strip(up.right).args[0]) == alt_ids(top.right)
+                    ctx.ob('R17.6', 'the name retried after ENAMETOOLONG is '
+                                    'X[:len(X)-len(suffix)] + suffix', ok, node=o,
+                           message='after "name too long" the next name is built from %s: it '
+                                   'is not guaranteed to be shorter, and ENAMETOOLONG is on '
+                                   'the retry allow-list, so trash-put can loop forever'
+                                   % short(l, 140))
     # ---- R17.5 fault handling deletes nothing but the reservation
     infos = set()
     for o in r.opens:
